@@ -95,8 +95,10 @@ class LoopMixin:
             v = self.resolve(v)
             if isinstance(v, IntV):
                 snap[('local', n)] = v
-            elif isinstance(v, SeqV) and len(v.segs) == 1 and isinstance(v.segs[0], Sl):
-                snap[('start', n)] = v.segs[0].lo
+            elif isinstance(v, SeqV):
+                snap[('local', n)] = v
+                if len(v.segs) == 1 and isinstance(v.segs[0], Sl):
+                    snap[('start', n)] = v.segs[0].lo
         if isinstance(fr.self_obj, ObjV):
             for n, v in fr.self_obj.fields.items():
                 if isinstance(v, IntV):
@@ -329,6 +331,9 @@ class LoopMixin:
             if gens[k].value is not None:
                 self._write_key(k, gens[k].value)
         self._havoc_containers(mutated, st)
+        hook = self.an.hooks.get('loop_head')
+        if hook is not None:
+            hook(self, st, pre, {k: g.value for k, g in gens.items()})
         self.event('loop-head', st, pre=pre, gen={k: g.value for k, g in gens.items()},
                    files={id(f): (f, f.pos) for f in self.all_files})
         return keys, gens
@@ -386,6 +391,9 @@ class LoopMixin:
             src = seqops.Source(self.fresh('ch'), 'str', 1, value_tags(itv), cs)
             return seqops.whole(src), itv.length()
         if isinstance(itv, DictV):
+            ke = getattr(itv, 'key_elem', None)
+            if ke is not None:
+                return ke(self), None
             e = SymV(self.fresh('key'), 'key', origin=itv, tags=itv.tags)
             return e, None
         if isinstance(itv, PyLit):
